@@ -991,6 +991,8 @@ hostrange_to_string(hostrange_t hr, size_t n, char *buf, char *separator)
         }
         len+=ret;
         buf[len++] = sep;
+        if (i == hr->hi)        /* hi may be ULONG_MAX: i++ would wrap */
+            break;
     }
 
     if (truncated) {
@@ -1461,6 +1463,8 @@ _push_range_list_with_suffix(hostlist_t hl, char *pfx, char *sfx,
              * hr is copied in hostlist_push_range. Need to free here.
              */
             hostrange_destroy (hr);
+            if (j == rng->hi)   /* hi may be ULONG_MAX: j++ would wrap */
+                break;
         }
         rng++;
     }
